@@ -224,10 +224,12 @@ func (l *Log) Append(b []byte) error {
 		if err := l.Commit(); err != nil {
 			return err
 		}
+		verifPoint("append:committed")
 		s, err := openSegment(l.dir, l.LastIndex(), l.opt)
 		if err != nil {
 			return err
 		}
+		verifPoint("append:opened", s.file.Name())
 		connect(l.last, s)
 		l.last = s
 	}
@@ -270,6 +272,7 @@ func (l *Log) RemoveLTE(i uint64) error {
 			if err := s.closeAndRemove(); err != nil {
 				return err
 			}
+			verifPoint("removeLTE:removed", s.file.Name())
 		} else {
 			break
 		}
@@ -298,6 +301,7 @@ func (l *Log) RemoveGTE(i uint64) error {
 			if err := s.closeAndRemove(); err != nil {
 				return err
 			}
+			verifPoint("removeGTE:removed", s.file.Name())
 
 			if l.last == nil {
 				if i > 0 {
@@ -307,6 +311,7 @@ func (l *Log) RemoveGTE(i uint64) error {
 				if err != nil {
 					return err
 				}
+				verifPoint("removeGTE:created", s.file.Name())
 				l.first, l.last = s, s
 				break
 			}
@@ -329,6 +334,7 @@ func (l *Log) Reset(lastIndex uint64) error {
 		if err := l.first.closeAndRemove(); err != nil {
 			return err
 		}
+		verifPoint("reset:removed", l.first.file.Name())
 		l.first = l.first.next
 	}
 
@@ -336,6 +342,7 @@ func (l *Log) Reset(lastIndex uint64) error {
 	if err != nil {
 		return err
 	}
+	verifPoint("reset:created", s.file.Name())
 	l.first, l.last = s, s
 	return nil
 }
